@@ -14,6 +14,7 @@ matrix homomorphism, Act = matrix·p (3- and 4-vectors), (X@Y).Act(p) = X.Act(Y.
 from __future__ import annotations
 
 import math
+from fractions import Fraction
 
 import torch
 
@@ -451,6 +452,7 @@ def run_history(ctx: Ctx, n_hist: int, length: int):
             return out
         try:
             Xi = X.clone()
+            states = [Xi.tensor().double()[0].tolist()]
             for step, (kind, arg) in enumerate(seq):
                 if kind == "mulL":
                     Xi.copy_(U.lt(name, [arg], D) @ Xi)
@@ -464,6 +466,7 @@ def run_history(ctx: Ctx, n_hist: int, length: int):
                     Xi.add_(torch.tensor([arg + [7.0]], dtype=D))  # extra component must be ignored
                 else:
                     Xi.copy_(Xi + torch.tensor([arg], dtype=D))
+                states.append(Xi.tensor().double()[0].tolist())
                 if stale is None and (step < 8 or step % 37 == 0 or step == length - 1):
                     a, b = reads(Xi), reads(Xi.clone())
                     for kk in a:
@@ -477,6 +480,10 @@ def run_history(ctx: Ctx, n_hist: int, length: int):
             ctx.fail(case | {"seq_kinds": [k for k, _ in seq][:stale[0] + 1]},
                      f"stale: after in-place update #{stale[0]} ({stale[1]}) {stale[2]}() of the updated object differs from the "
                      f"same call on a fresh clone by {stale[3]:.3e} ({name}, {dtype})")
+        # hypothesis of `rounded_history_norm` / `rounded_history_drift` (theorems about the history a rounding machine
+        # computes): EVERY stored state is within relative distance gamma = 16 eps of the exact result of the operation
+        # applied to the previously stored state, and every product operand is gamma-near unit
+        gmax = check_steps(ctx, case, name, eps, states, seq)
         # model: the state is threaded through the history with one persistent driver process
         xm, tmax = run_model_history(ctx, name, eps, x_model, seq)
         got = Xi.tensor().double()[0].tolist()
@@ -498,8 +505,54 @@ def run_history(ctx: Ctx, n_hist: int, length: int):
             ctx.disagree("history", case, f"after {length} ops {name} {dtype}: block errors {badb} > {lim}")
         if U.SIDX[name] is not None and not got[U.SIDX[name]] > 0:
             ctx.fail(case, f"valid: scale not positive after history ({name})")
-        ctx.sample({"stream": "history", "type": name, "dtype": dtype, "length": length, "drift": drift,
+        ctx.sample({"stream": "history", "type": name, "dtype": dtype, "length": length, "drift": drift, "max_step_error_eps": gmax,
                     "first_ops": [k for k, _ in seq][:12]}, cap=10)
+
+
+GAMMA_EPS = 8
+
+
+def check_steps(ctx, case, name, eps, states, seq):
+    """per-step relative accuracy of the quaternion block, measured against the 192-bit model applied to the code's own
+    previous state; returns the largest ratio observed (in units of eps)"""
+    e = common.to_wire(eps)
+    lines = []
+    for k, (kind, arg) in enumerate(seq):
+        prev = common.wire_list(states[k])
+        if kind == "mulL":
+            lines.append(f"{name}.Mul {e} " + common.wire_list(arg) + " " + prev)
+        elif kind == "mulR":
+            lines.append(f"{name}.Mul {e} " + prev + " " + common.wire_list(arg))
+        elif kind == "inv":
+            lines.append(f"{name}.Inv {e} " + prev)
+        else:
+            lines.append(f"{name}.Retr {e} " + prev + " " + common.wire_list(arg))
+    reps = ctx.driver.run(lines)
+    gamma = GAMMA_EPS * eps
+    worst = 0.0
+    for k, rep in enumerate(reps):
+        st, toks = common.parse_reply(rep)
+        if st != "ok":
+            raise common.InfraError(f"model step failed: {rep}")
+        exact = [common.from_wire(t) for t in toks][U.QSL[name]]
+        got = states[k + 1][U.QSL[name]]
+        d2 = sum((Fraction(g) - x) ** 2 for g, x in zip(got, exact))
+        n2 = sum(x * x for x in exact)
+        ratio = math.sqrt(float(d2 / n2)) / eps if n2 else float("inf")
+        worst = max(worst, ratio)
+        kind, arg = seq[k]
+        if kind in ("mulL", "mulR"):
+            yn = math.sqrt(sum(v * v for v in arg[U.QSL[name]]))
+            if abs(yn - 1) > gamma:
+                ctx.disagree("history", case, f"step {k}: generated operand is not gamma-near unit ({abs(yn - 1):.3e})")
+                break
+        if not ratio <= GAMMA_EPS:
+            ctx.disagree("history", case | {"step": k, "kind": kind},
+                         f"per-step accuracy: stored quaternion after step {k} ({kind}) is {ratio:.2f} eps away (relative) from the exact "
+                         f"result on the previous stored state; hypothesis of rounded_history_norm needs <= {GAMMA_EPS} eps ({name})")
+            break
+    ctx.count(f"history.steps.{name}", len(reps))
+    return worst
 
 
 def run_model_history(ctx, name, eps, x0, seq):
